@@ -298,6 +298,12 @@ def run_unit(name, tier="quick", use_cache=True, canary=True, repo=None):
         prim = [s for s in d["spans"] if s["primary"]]
         sec = [s for s in d["spans"] if not s["primary"]]
         here = [s for s in prim if s["file"] and os.path.basename(s["file"]) == os.path.basename(gen)]
+        if not here:
+            # span inside a std macro expansion (unreachable!, panic!, assert!): take the location rustc renders
+            mloc = re.search(r"-->\s*(\S+?):(\d+):(\d+)", d.get("rendered") or "")
+            if mloc and os.path.basename(mloc.group(1)) == os.path.basename(gen):
+                here = [{"file": gen, "ls": int(mloc.group(2)), "le": int(mloc.group(2)), "primary": True,
+                         "label": None, "snippet": None}]
         if kind is None or kind == "undecided" or not here:
             res["status"] = "undecided"
             loc = ""
